@@ -33,6 +33,7 @@ set of changed pool slots (byte-level snapshots of all objects) and the `np.shar
 model's prediction "only the target changes, nothing is shared", and the write/alias table `Heap.spec` is
 compared call by call.  Operator graphs, TDVP and DMRG are covered by the table `Heap.spec` only (not by `step`).
 -/
+set_option linter.unusedSectionVars false
 namespace Ptn.C19
 open Ptn.Hist Ptn.Heap
 
@@ -79,6 +80,184 @@ theorem spec_table :
         "OpGraph.add", "OpGraph.simplify", "OpGraph.flip", "OpGraph.merge_edges", "OpGraph.rename_node_id",
         "OpGraph.rename_edge_id"], spec fn = ⟨[0], false⟩) := by
   simp [spec]
+
+/-! ## (4) allocation model -/
+
+/-- abstract effect of one call on the allocation state: an in-place call rebinds `n` arrays of its target (the
+others, selected by `keep`, stay), a call returning an object allocates `n` fresh arrays -/
+def astep (s : HState) (op : HOp α ρ) (n : Nat) (keep : List Nat → List Nat) : HState :=
+  match op.target with
+  | some i => rebind s i n keep
+  | none => allocNew s n
+
+/-- an abstract history: every operation with the number of arrays it allocates and the selection of kept arrays -/
+abbrev AHistory (α ρ : Type) := List (HOp α ρ × Nat × (List Nat → List Nat))
+
+def arun (s : HState) : AHistory α ρ → HState
+  | [] => s
+  | (op, n, keep) :: h => arun (astep s op n keep) h
+
+/-- no object owns an array twice, all ids are allocated (`< next`), and no two objects own a common array -/
+structure AllocInv (s : HState) : Prop where
+  nodup : ∀ o ∈ s.pool, o.arrays.Nodup
+  below : ∀ o ∈ s.pool, ∀ a ∈ o.arrays, a < s.next
+  disjoint : ∀ (i j : Nat) (a b : HObj), i ≠ j → s.pool[i]? = some a → s.pool[j]? = some b →
+    ∀ x, x ∈ a.arrays → x ∉ b.arrays
+
+theorem mem_range'_iff {a s n : Nat} : a ∈ List.range' s n ↔ s ≤ a ∧ a < s + n := by
+  simp [List.mem_range'_1]
+
+theorem allocNew_inv {s : HState} (h : AllocInv s) (n : Nat) : AllocInv (allocNew s n) := by
+  refine ⟨?_, ?_, ?_⟩
+  · intro o ho
+    simp only [allocNew, List.mem_append, List.mem_singleton] at ho
+    rcases ho with ho | rfl
+    · exact h.nodup o ho
+    · exact List.nodup_range' ..
+  · intro o ho a ha
+    simp only [allocNew, List.mem_append, List.mem_singleton] at ho ⊢
+    rcases ho with ho | rfl
+    · have := h.below o ho a ha; omega
+    · have := (mem_range'_iff.1 ha).2; omega
+  · intro i j a b hij ha hb
+    simp only [allocNew] at ha hb
+    intro x hxa hxb
+    rw [List.getElem?_append] at ha hb
+    split at ha <;> split at hb
+    · exact h.disjoint i j a b hij ha hb x hxa hxb
+    · have hb' := List.getElem?_eq_some_iff.1 hb
+      obtain ⟨hl, hb'⟩ := hb'
+      simp only [List.getElem_singleton] at hb'
+      subst hb'
+      have := h.below a (List.mem_of_getElem? ha) x hxa
+      have := (mem_range'_iff.1 hxb).1
+      omega
+    · have ha' := List.getElem?_eq_some_iff.1 ha
+      obtain ⟨hl, ha'⟩ := ha'
+      simp only [List.getElem_singleton] at ha'
+      subst ha'
+      have := h.below b (List.mem_of_getElem? hb) x hxb
+      have := (mem_range'_iff.1 hxa).1
+      omega
+    · have ha' := (List.getElem?_eq_some_iff.1 ha).1
+      have hb' := (List.getElem?_eq_some_iff.1 hb).1
+      simp only [List.length_singleton] at ha' hb'
+      omega
+
+theorem rebind_inv {s : HState} (h : AllocInv s) (i n : Nat) {keep : List Nat → List Nat}
+    (hk : ∀ l, (keep l).Sublist l) : AllocInv (rebind s i n keep) := by
+  have hget : ∀ j o, (rebind s i n keep).pool[j]? = some o →
+      ∃ o0, s.pool[j]? = some o0 ∧
+        ((j ≠ i ∧ o = o0) ∨ (j = i ∧ o = ⟨keep o0.arrays ++ List.range' s.next n⟩)) := by
+    intro j o ho
+    simp only [rebind, List.getElem?_modify] at ho
+    cases hs : s.pool[j]? with
+    | none => simp [hs] at ho
+    | some o0 =>
+      refine ⟨o0, rfl, ?_⟩
+      by_cases hji : i = j
+      · simp only [hs, hji, if_true, Option.map_eq_map, Option.map_some, Option.some.injEq] at ho
+        exact .inr ⟨hji.symm, ho.symm⟩
+      · simp only [hs, hji, if_false, Option.map_eq_map, Option.map_some, Option.some.injEq] at ho
+        exact .inl ⟨fun e => hji e.symm, ho.symm⟩
+  have hmem : ∀ o ∈ (rebind s i n keep).pool, ∃ j : Nat, (rebind s i n keep).pool[j]? = some o := by
+    intro o ho
+    obtain ⟨j, hj, e⟩ := List.getElem_of_mem ho
+    exact ⟨j, by rw [List.getElem?_eq_getElem hj, e]⟩
+  refine ⟨?_, ?_, ?_⟩
+  · intro o ho
+    obtain ⟨j, hj⟩ := hmem o ho
+    obtain ⟨o0, h0, hc⟩ := hget j o hj
+    have hm0 := List.mem_of_getElem? h0
+    rcases hc with ⟨_, rfl⟩ | ⟨_, rfl⟩
+    · exact h.nodup _ hm0
+    · refine List.nodup_append.2 ⟨(hk _).nodup (h.nodup _ hm0), List.nodup_range' .., ?_⟩
+      intro a ha b hb e
+      subst e
+      have := h.below _ hm0 a ((hk _).subset ha)
+      have := (mem_range'_iff.1 hb).1
+      omega
+  · intro o ho a ha
+    obtain ⟨j, hj⟩ := hmem o ho
+    obtain ⟨o0, h0, hc⟩ := hget j o hj
+    have hm0 := List.mem_of_getElem? h0
+    show a < s.next + n
+    rcases hc with ⟨_, rfl⟩ | ⟨_, rfl⟩
+    · have := h.below _ hm0 a ha; omega
+    · rcases List.mem_append.1 ha with ha | ha
+      · have := h.below _ hm0 a ((hk _).subset ha); omega
+      · have := (mem_range'_iff.1 ha).2; omega
+  · intro j1 j2 a b hne ha hb x hxa hxb
+    obtain ⟨a0, ha0, hca⟩ := hget j1 a ha
+    obtain ⟨b0, hb0, hcb⟩ := hget j2 b hb
+    have hma := List.mem_of_getElem? ha0
+    have hmb := List.mem_of_getElem? hb0
+    have hd := h.disjoint j1 j2 a0 b0 hne ha0 hb0
+    rcases hca with ⟨_, rfl⟩ | ⟨e1, rfl⟩ <;> rcases hcb with ⟨_, rfl⟩ | ⟨e2, rfl⟩
+    · exact hd x hxa hxb
+    · rcases List.mem_append.1 hxb with hxb | hxb
+      · exact hd x hxa ((hk _).subset hxb)
+      · have := h.below _ hma x hxa
+        have := (mem_range'_iff.1 hxb).1
+        omega
+    · rcases List.mem_append.1 hxa with hxa | hxa
+      · exact hd x ((hk _).subset hxa) hxb
+      · have := h.below _ hmb x hxb
+        have := (mem_range'_iff.1 hxa).1
+        omega
+    · exact hne (e1.trans e2.symm)
+
+/-- one call preserves the allocation invariant -/
+theorem astep_inv {s : HState} (h : AllocInv s) (op : HOp α ρ) (n : Nat) {keep : List Nat → List Nat}
+    (hk : ∀ l, (keep l).Sublist l) : AllocInv (astep s op n keep) := by
+  unfold astep
+  split
+  · exact rebind_inv h _ n hk
+  · exact allocNew_inv h n
+
+/-- **(4)** The allocation invariant holds along every history. -/
+theorem alloc_inv {s : HState} (h : AllocInv s) (hist : AHistory α ρ)
+    (hk : ∀ e ∈ hist, ∀ l, (e.2.2 l).Sublist l) : AllocInv (arun s hist) := by
+  induction hist generalizing s with
+  | nil => exact h
+  | cons e hist ih =>
+    obtain ⟨op, n, keep⟩ := e
+    exact ih (astep_inv h op n (hk _ List.mem_cons_self)) (fun e he => hk e (List.mem_cons_of_mem _ he))
+
+/-- **(4)** `alloc_disjoint`: if initially all objects own pairwise disjoint, duplicate-free id lists below `next`,
+then after any history no two distinct objects share an array. -/
+theorem alloc_disjoint {s : HState} (h : AllocInv s) (hist : AHistory α ρ)
+    (hk : ∀ e ∈ hist, ∀ l, (e.2.2 l).Sublist l) {i j : Nat} {a b : HObj} (hij : i ≠ j)
+    (ha : (arun s hist).pool[i]? = some a) (hb : (arun s hist).pool[j]? = some b) :
+    ∀ x, x ∈ a.arrays → x ∉ b.arrays :=
+  (alloc_inv h hist hk).disjoint i j a b hij ha hb
+
+/-- **(4)** `alloc_fresh`: the object returned by a call owns only arrays allocated by that call (ids `≥` the `next`
+before the call), hence none owned by any operand or any other object before the call. -/
+theorem alloc_fresh {s : HState} (h : AllocInv s) (op : HOp α ρ) (n : Nat) (keep : List Nat → List Nat)
+    (ht : op.target = none) :
+    (astep s op n keep).pool = s.pool ++ [⟨List.range' s.next n⟩] ∧
+    (∀ x ∈ List.range' s.next n, s.next ≤ x) ∧
+    (∀ o ∈ s.pool, ∀ x ∈ o.arrays, x ∉ List.range' s.next n) := by
+  refine ⟨by simp [astep, ht, allocNew], fun x hx => (mem_range'_iff.1 hx).1, fun o ho x hx hx' => ?_⟩
+  have := h.below o ho x hx
+  have := (mem_range'_iff.1 hx').1
+  omega
+
+/-- **(4)** `alloc_frame`: an in-place call leaves the arrays of every object other than its target untouched; the
+target keeps a selection of its own arrays and gets fresh ones. -/
+theorem alloc_frame (s : HState) (op : HOp α ρ) (n : Nat) (keep : List Nat → List Nat) {i : Nat}
+    (ht : op.target = some i) :
+    (∀ j, j ≠ i → (astep s op n keep).pool[j]? = s.pool[j]?) ∧
+    (∀ o, s.pool[i]? = some o →
+      (astep s op n keep).pool[i]? = some ⟨keep o.arrays ++ List.range' s.next n⟩) := by
+  simp only [astep, ht, rebind]
+  refine ⟨fun j hj => ?_, fun o ho => ?_⟩
+  · rw [List.getElem?_modify]
+    have : ¬ i = j := fun e => hj e.symm
+    simp [this]
+  · rw [List.getElem?_modify, ho]
+    simp
 
 /-! ## (1) frame of one call -/
 
@@ -247,187 +426,6 @@ theorem history_frame {p p1 p2 p3 : Pool α} {h1 h2 h3 : History α ρ}
   cases hq2
   exact hr
 
-/-! ## (4) allocation model -/
-
-/-- abstract effect of one call on the allocation state: an in-place call rebinds `n` arrays of its target (the
-others, selected by `keep`, stay), a call returning an object allocates `n` fresh arrays -/
-def astep (s : HState) (op : HOp α ρ) (n : Nat) (keep : List Nat → List Nat) : HState :=
-  match op.target with
-  | some i => rebind s i n keep
-  | none => allocNew s n
-
-/-- an abstract history: every operation with the number of arrays it allocates and the selection of kept arrays -/
-abbrev AHistory (α ρ : Type) := List (HOp α ρ × Nat × (List Nat → List Nat))
-
-def arun (s : HState) : AHistory α ρ → HState
-  | [] => s
-  | (op, n, keep) :: h => arun (astep s op n keep) h
-
-/-- no object owns an array twice, all ids are allocated (`< next`), and no two objects own a common array -/
-structure AllocInv (s : HState) : Prop where
-  nodup : ∀ o ∈ s.pool, o.arrays.Nodup
-  below : ∀ o ∈ s.pool, ∀ a ∈ o.arrays, a < s.next
-  disjoint : ∀ i j a b, i ≠ j → s.pool[i]? = some a → s.pool[j]? = some b → a.arrays.Disjoint b.arrays
-
-theorem mem_range'_iff {a s n : Nat} : a ∈ List.range' s n ↔ s ≤ a ∧ a < s + n := by
-  simp [List.mem_range'_1]
-
-theorem allocNew_inv {s : HState} (h : AllocInv s) (n : Nat) : AllocInv (allocNew s n) := by
-  refine ⟨?_, ?_, ?_⟩
-  · intro o ho
-    simp only [allocNew, List.mem_append, List.mem_singleton] at ho
-    rcases ho with ho | rfl
-    · exact h.nodup o ho
-    · exact List.nodup_range' ..
-  · intro o ho a ha
-    simp only [allocNew, List.mem_append, List.mem_singleton] at ho ⊢
-    rcases ho with ho | rfl
-    · have := h.below o ho a ha; omega
-    · have := (mem_range'_iff.1 ha).2; omega
-  · intro i j a b hij ha hb
-    simp only [allocNew] at ha hb
-    intro x hxa hxb
-    rw [List.getElem?_append] at ha hb
-    split at ha <;> split at hb
-    · exact h.disjoint i j a b hij ha hb hxa hxb
-    · have hb' := List.getElem?_eq_some_iff.1 hb
-      obtain ⟨hl, hb'⟩ := hb'
-      simp only [List.getElem_singleton] at hb'
-      subst hb'
-      have := h.below a (List.mem_of_getElem? ha) x hxa
-      have := (mem_range'_iff.1 hxb).1
-      omega
-    · have ha' := List.getElem?_eq_some_iff.1 ha
-      obtain ⟨hl, ha'⟩ := ha'
-      simp only [List.getElem_singleton] at ha'
-      subst ha'
-      have := h.below b (List.mem_of_getElem? hb) x hxb
-      have := (mem_range'_iff.1 hxa).1
-      omega
-    · have ha' := (List.getElem?_eq_some_iff.1 ha).1
-      have hb' := (List.getElem?_eq_some_iff.1 hb).1
-      simp only [List.length_singleton] at ha' hb'
-      omega
-
-theorem rebind_inv {s : HState} (h : AllocInv s) (i n : Nat) {keep : List Nat → List Nat}
-    (hk : ∀ l, (keep l).Sublist l) : AllocInv (rebind s i n keep) := by
-  have hget : ∀ j o, (rebind s i n keep).pool[j]? = some o →
-      ∃ o0, s.pool[j]? = some o0 ∧
-        ((j ≠ i ∧ o = o0) ∨ (j = i ∧ o = ⟨keep o0.arrays ++ List.range' s.next n⟩)) := by
-    intro j o ho
-    simp only [rebind, List.getElem?_modify] at ho
-    cases hs : s.pool[j]? with
-    | none => simp [hs] at ho
-    | some o0 =>
-      simp only [hs, Option.map_some, Option.some.injEq] at ho
-      refine ⟨o0, rfl, ?_⟩
-      by_cases hji : i = j
-      · simp only [hji, if_true] at ho
-        exact .inr ⟨hji.symm, ho.symm⟩
-      · simp only [hji, if_false] at ho
-        exact .inl ⟨fun e => hji e.symm, ho.symm⟩
-  have hmem : ∀ o ∈ (rebind s i n keep).pool, ∃ j, (rebind s i n keep).pool[j]? = some o := by
-    intro o ho
-    obtain ⟨j, hj, e⟩ := List.getElem_of_mem ho
-    exact ⟨j, by rw [List.getElem?_eq_getElem hj, e]⟩
-  refine ⟨?_, ?_, ?_⟩
-  · intro o ho
-    obtain ⟨j, hj⟩ := hmem o ho
-    obtain ⟨o0, h0, hc⟩ := hget j o hj
-    have hm0 := List.mem_of_getElem? h0
-    rcases hc with ⟨_, rfl⟩ | ⟨_, rfl⟩
-    · exact h.nodup _ hm0
-    · refine List.nodup_append.2 ⟨(hk _).nodup (h.nodup _ hm0), List.nodup_range' .., ?_⟩
-      intro a ha b hb e
-      subst e
-      have := h.below _ hm0 a ((hk _).subset ha)
-      have := (mem_range'_iff.1 hb).1
-      omega
-  · intro o ho a ha
-    obtain ⟨j, hj⟩ := hmem o ho
-    obtain ⟨o0, h0, hc⟩ := hget j o hj
-    have hm0 := List.mem_of_getElem? h0
-    show a < s.next + n
-    rcases hc with ⟨_, rfl⟩ | ⟨_, rfl⟩
-    · have := h.below _ hm0 a ha; omega
-    · rcases List.mem_append.1 ha with ha | ha
-      · have := h.below _ hm0 a ((hk _).subset ha); omega
-      · have := (mem_range'_iff.1 ha).2; omega
-  · intro j1 j2 a b hne ha hb x hxa hxb
-    obtain ⟨a0, ha0, hca⟩ := hget j1 a ha
-    obtain ⟨b0, hb0, hcb⟩ := hget j2 b hb
-    have hma := List.mem_of_getElem? ha0
-    have hmb := List.mem_of_getElem? hb0
-    have hd := h.disjoint j1 j2 a0 b0 hne ha0 hb0
-    rcases hca with ⟨_, rfl⟩ | ⟨e1, rfl⟩ <;> rcases hcb with ⟨_, rfl⟩ | ⟨e2, rfl⟩
-    · exact hd hxa hxb
-    · rcases List.mem_append.1 hxb with hxb | hxb
-      · exact hd hxa ((hk _).subset hxb)
-      · have := h.below _ hma x hxa
-        have := (mem_range'_iff.1 hxb).1
-        omega
-    · rcases List.mem_append.1 hxa with hxa | hxa
-      · exact hd ((hk _).subset hxa) hxb
-      · have := h.below _ hmb x hxb
-        have := (mem_range'_iff.1 hxa).1
-        omega
-    · exact hne (e1.trans e2.symm)
-
-/-- one call preserves the allocation invariant -/
-theorem astep_inv {s : HState} (h : AllocInv s) (op : HOp α ρ) (n : Nat) {keep : List Nat → List Nat}
-    (hk : ∀ l, (keep l).Sublist l) : AllocInv (astep s op n keep) := by
-  unfold astep
-  split
-  · exact rebind_inv h _ n hk
-  · exact allocNew_inv h n
-
-/-- **(4)** The allocation invariant holds along every history. -/
-theorem alloc_inv {s : HState} (h : AllocInv s) (hist : AHistory α ρ)
-    (hk : ∀ e ∈ hist, ∀ l, (e.2.2 l).Sublist l) : AllocInv (arun s hist) := by
-  induction hist generalizing s with
-  | nil => exact h
-  | cons e hist ih =>
-    obtain ⟨op, n, keep⟩ := e
-    exact ih (astep_inv h op n (hk _ List.mem_cons_self)) (fun e he => hk e (List.mem_cons_of_mem _ he))
-
-/-- **(4)** `alloc_disjoint`: if initially all objects own pairwise disjoint, duplicate-free id lists below `next`,
-then after any history no two distinct objects share an array. -/
-theorem alloc_disjoint {s : HState} (h : AllocInv s) (hist : AHistory α ρ)
-    (hk : ∀ e ∈ hist, ∀ l, (e.2.2 l).Sublist l) {i j : Nat} {a b : HObj} (hij : i ≠ j)
-    (ha : (arun s hist).pool[i]? = some a) (hb : (arun s hist).pool[j]? = some b) :
-    ∀ x, x ∈ a.arrays → x ∉ b.arrays :=
-  fun _ hxa hxb => (alloc_inv h hist hk).disjoint i j a b hij ha hb hxa hxb
-
-/-- **(4)** `alloc_fresh`: the object returned by a call owns only arrays allocated by that call (ids `≥` the `next`
-before the call), hence none owned by any operand or any other object before the call. -/
-theorem alloc_fresh {s : HState} (h : AllocInv s) (op : HOp α ρ) (n : Nat) (keep : List Nat → List Nat)
-    (ht : op.target = none) :
-    (astep s op n keep).pool = s.pool ++ [⟨List.range' s.next n⟩] ∧
-    (∀ x ∈ List.range' s.next n, s.next ≤ x) ∧
-    (∀ o ∈ s.pool, ∀ x ∈ o.arrays, x ∉ List.range' s.next n) := by
-  refine ⟨by simp [astep, ht, allocNew], fun x hx => (mem_range'_iff.1 hx).1, fun o ho x hx hx' => ?_⟩
-  have := h.below o ho x hx
-  have := (mem_range'_iff.1 hx').1
-  omega
-
-/-- **(4)** `alloc_frame`: an in-place call leaves the arrays of every object other than its target untouched; the
-target keeps a selection of its own arrays and gets fresh ones. -/
-theorem alloc_frame (s : HState) (op : HOp α ρ) (n : Nat) (keep : List Nat → List Nat) {i : Nat}
-    (ht : op.target = some i) :
-    (∀ j, j ≠ i → (astep s op n keep).pool[j]? = s.pool[j]?) ∧
-    (∀ o, s.pool[i]? = some o →
-      (astep s op n keep).pool[i]? = some ⟨keep o.arrays ++ List.range' s.next n⟩) := by
-  simp only [astep, ht, rebind]
-  refine ⟨fun j hj => ?_, fun o ho => ?_⟩
-  · rw [List.getElem?_modify]
-    have : ¬ i = j := fun e => hj e.symm
-    simp [this]
-  · rw [List.getElem?_modify, ho]
-    simp
-
-variable {α ρ : Type} [OfNat α 0] [OfNat α 1] [Add α] [Mul α] [Neg α] [DecidableEq α] [HasConj α]
-  [RealLike ρ α] [OfNat ρ 0] [OfNat ρ 1] [Add ρ] [Mul ρ] [Div ρ] [Neg ρ] [LT ρ] [DecidableEq ρ] [DecidableLT ρ]
-
 /-- the abstract pool tracks the model pool: same number of slots after every successful call -/
 theorem alloc_tracks {k : StepKernels α ρ} {p p' : Pool α} {op : HOp α ρ} {out : List ρ}
     (h : step k p op = .ok (p', out)) (s : HState) (hs : s.pool.length = p.length) (n : Nat)
@@ -438,24 +436,26 @@ theorem alloc_tracks {k : StepKernels α ρ} {p p' : Pool α} {op : HOp α ρ} {
   | none => simp [allocNew, hs]
   | some i => simp [rebind, hs]
 
+
 /-! ## Non-vacuity -/
 
-/-- a concrete pool (one MPS, one MPO, both of length 0 … 1) and the history "copy slot 0, then zero the charges of
-the copy": both steps succeed, the operand (slot 0) and the bystander (slot 1) are unchanged, the copy changed. -/
-def exPsi : MPS Int := ⟨[0, 1], [[0], [1]], [⟨2, 1, 1, fun s _ _ => if s = 1 then 1 else 0⟩]⟩
-def exOp : MPO Int := ⟨[0, 1], [[0], [0]], [⟨2, 2, 1, 1, fun s t _ _ => if s = t then 1 else 0⟩]⟩
-def exPool : Pool Int := [.mps exPsi, .mpo exOp]
-def exK : StepKernels Int Int :=
+/-- a concrete pool (one MPS, one MPO) and the history "copy slot 0, then zero the charges of the copy": both steps
+succeed, the operand (slot 0) and the bystander (slot 1) hold the same value at the end, the copy (slot 2) is the
+only target. -/
+def exPsi : MPS Rat := ⟨[0, 1], [[0], [1]], [⟨2, 1, 1, fun s _ _ => if s = 1 then 1 else 0⟩]⟩
+def exOp : MPO Rat := ⟨[0, 1], [[0], [0]], [⟨2, 2, 1, 1, fun s t _ _ => if s = t then 1 else 0⟩]⟩
+def exPool : Pool Rat := [.mps exPsi, .mpo exOp]
+def exK : StepKernels Rat Rat :=
   ⟨fun B => (B, B), ⟨fun B => (B, [], B), fun _ => 0, fun _ => []⟩, fun x => x, fun x _ => x⟩
-def exHist : History Int Int := [(exK, .copy 0), (exK, .zeroQ 2)]
+def exHist : History Rat Rat := [(exK, .copy 0), (exK, .zeroQ 2)]
 
 example : ∃ p', run exPool exHist = .ok p' ∧ p'.length = 3 ∧ p'[0]? = exPool[0]? ∧ p'[1]? = exPool[1]? ∧
     (∀ kop ∈ exHist, kop.2.target ≠ some 0) ∧ (∃ kop ∈ exHist, kop.2.target = some 2) :=
-  ⟨_, rfl, rfl, rfl, rfl, by decide, ⟨_, List.mem_cons_of_mem _ List.mem_cons_self, rfl⟩⟩
+  ⟨_, rfl, rfl, rfl, rfl, by simp [exHist, HOp.target], ⟨_, List.mem_cons_of_mem _ List.mem_cons_self, rfl⟩⟩
 
-/-- the hypothesis `AllocInv` is satisfiable by a non-trivial state, and an in-place call followed by a call
-returning an object keeps everything disjoint (ids: object 0 owns `[0,1,2]` then `[0,5,6]`, object 1 owns `[3,4]`,
-the new object `[7,8,9]`) -/
+/-- the hypothesis `AllocInv` is satisfiable by a non-trivial state; an in-place call followed by a call returning an
+object keeps everything disjoint (object 0 owns `[0,1,2]` then `[0,5,6]`, object 1 owns `[3,4]`, the new object
+`[7,8,9]`) -/
 def exS : HState := ⟨[⟨[0, 1, 2]⟩, ⟨[3, 4]⟩], 5⟩
 
 theorem exS_inv : AllocInv exS := by
@@ -465,16 +465,24 @@ theorem exS_inv : AllocInv exS := by
   | 0, 0 => exact absurd rfl hij
   | 0, 1 =>
     simp only [exS, List.getElem?_cons_zero, List.getElem?_cons_succ, Option.some.injEq] at ha hb
-    subst ha hb; decide
+    subst ha hb; intro x hx hx'; simp at hx hx'; omega
   | 1, 0 =>
     simp only [exS, List.getElem?_cons_zero, List.getElem?_cons_succ, Option.some.injEq] at ha hb
-    subst ha hb; decide
+    subst ha hb; intro x hx hx'; simp at hx hx'; omega
   | 1, 1 => exact absurd rfl hij
   | i + 2, _ => simp [exS] at ha
   | 0, j + 2 => simp [exS] at hb
   | 1, j + 2 => simp [exS] at hb
 
-example : (arun exS ([(.orthoMps 0 true, 2, fun l => l.take 1), (.addMps 0 0 1, 3, id)] : AHistory Int Int)).pool
+example : (arun exS ([(.orthoMps 0 true, 2, fun l => l.take 1), (.addMps 0 0 1, 3, id)] : AHistory Rat Rat)).pool
     = [⟨[0, 5, 6]⟩, ⟨[3, 4]⟩, ⟨[7, 8, 9]⟩] := by decide
+
+example : AllocInv (arun exS ([(.orthoMps 0 true, 2, fun l => l.take 1), (.addMps 0 0 1, 3, id)] : AHistory Rat Rat)) :=
+  alloc_inv exS_inv _ (by
+    intro e he l
+    simp only [List.mem_cons, List.not_mem_nil, or_false] at he
+    rcases he with rfl | rfl
+    · exact List.take_sublist _ _
+    · exact List.Sublist.refl _)
 
 end Ptn.C19
